@@ -280,6 +280,7 @@ def install():
     _pu.print_bytes_msg = lambda msg: "<packet>"
     _note("reprlib.repr / data_types._repr / PacketLazyFormatter.__str__ -> constant string")
 
+    from crosshair.statespace import context_statespace
     # ---- integer pack: fresh byte variables tied to the value by ONE linear constraint
     # (v == sum b_i * 256^i, 0 <= b_i < 256; the decomposition is unique) instead of n div/mod
     # terms -- keeps 8-byte round trips inside linear integer arithmetic.
@@ -380,8 +381,15 @@ def install():
                     nd += 1
                 if nd < width:
                     nd = width
-                cps = [_hex_digit_cp((obj >> (4 * i)) & 15) for i in reversed(range(nd))]
+                # fresh nibble variables tied to the value by one linear constraint (unique decomposition)
                 with NoTracing():
+                    space = context_statespace()
+                    tag = space.uniq()
+                    ds = [_z3.Int(f"hx{tag}_{k}") for k in range(nd)]
+                    for dd in ds:
+                        space.add(_z3.And(dd >= 0, dd <= 15))
+                    space.add(obj.var == _z3.Sum([ds[k] * (16 ** k) for k in range(nd)]))
+                    cps = [SymbolicInt(ds[k] + _z3.If(ds[k] >= 10, 87, 48)) for k in reversed(range(nd))]
                     return LazyIntSymbolicStr(cps)
             if spec in ("", "d"):
                 return obj.__repr__()
@@ -596,6 +604,31 @@ def install():
 
     _core._PATCH_REGISTRATIONS[repr] = _sym_repr
     _note("repr() of a symbolic str -> constant (only used in messages); strict codec errors raised without realising the input")
+
+
+    # ---- datetime rendering in LogixDriver.get_plc_time: opaque stand-ins (the rendering is outside every claim)
+    import pycomm3.logix_driver as _ld
+
+    class _FakeTimedelta:
+        def __init__(self, microseconds=0):
+            self.microseconds = microseconds
+
+    class _FakeDatetime:
+        def __init__(self, *a, us=0):
+            self.us = us
+
+        def __add__(self, td):
+            return _FakeDatetime(us=self.us + td.microseconds)
+
+        def strftime(self, fmt):
+            return "<time>"
+
+    class _FakeDatetimeModule:
+        datetime = _FakeDatetime
+        timedelta = _FakeTimedelta
+
+    _ld.datetime = _FakeDatetimeModule
+    _note("datetime/timedelta inside pycomm3.logix_driver (get_plc_time rendering) -> opaque stand-ins")
 
     import pycomm3.cip_driver as _cd
     _cd.urandom = lambda n: bytes([0x5A] * n)
